@@ -15,7 +15,7 @@ ROOT = os.path.dirname(os.path.dirname(os.path.dirname(os.path.abspath(__file__)
 
 def _worker_env():
   os.environ.setdefault('JAX_PLATFORMS', 'cpu')
-  os.environ.setdefault('XLA_FLAGS', '--xla_cpu_multi_thread_eigen=false intra_op_parallelism_threads=1')
+  os.environ.setdefault('XLA_FLAGS', '--xla_force_host_platform_device_count=4 --xla_cpu_multi_thread_eigen=false intra_op_parallelism_threads=1')
   os.environ.setdefault('OMP_NUM_THREADS', '1')
   os.environ.setdefault('OPENBLAS_NUM_THREADS', '1')
   os.environ['BRAX_VERIF'] = '1'
